@@ -287,6 +287,8 @@ func runC16(c *Ctx, r *Report) {
 	importRules(c, r, "C09", []string{"R-C09.6"}, "R-C16.12")
 	r.Doc("R-C16.13", "every writer stamps with its own key as clock id, also after an identity change (adopted from C04: writers sharing a clock id produce full ties, which the default ordering breaks by position — the bounded merge then keeps other entries than the tail of the unbounded one)")
 	importRules(c, r, "C04", []string{"R-C04.1"}, "R-C16.13")
+	r.Doc("R-C16.14", "the constructor indexes every predecessor link of every given entry (adopted from C02: the unbounded merge prunes head candidates through that index and the bounded one recomputes the heads without it — with a link left out they disagree for every bound above the merged size)")
+	importRules(c, r, "C02", []string{"R-C02.4"}, "R-C16.14")
 	r.Doc("R-C16.11", "nothing is allocated for the size bound itself: every sized allocation is bounded by a collection that exists (adopted from C15: a bound far larger than the merged size must behave like the unbounded merge, not run out of memory)")
 	importRules(c, r, "C15", []string{"R-C15.15"}, "R-C16.11")
 	r.Doc("R-C16.5", "the bounded merge computes its candidates, validates, applies and truncates in one critical section of the destination")
